@@ -5,7 +5,7 @@
     scheme as explicit premises. *)
 From Coq Require Import List NArith ZArith Bool.
 Import ListNotations.
-Require Import Aurora.C30.Model Aurora.C30.Proofs.
+Require Import Aurora.C30.Model Aurora.C30.Proofs Aurora.C30.Conc Aurora.C30.ConcProofs.
 Local Open Scope N_scope.
 
 Definition with_sig {Sig} (recover : cheque -> Sig -> option addr) (c : cheque) (sg : Sig) : signed :=
@@ -94,6 +94,65 @@ Proof.
   vm_compute. repeat split; congruence.
 Qed.
 Print Assumptions C30_orig_guard_refuted.
+
+
+(** ---- concurrent deliveries ([Conc.v]: micro-steps of Service.ReceiveCheque / chequeStore.ReceiveCheque under
+    the record lock and the store lock of the code at /repo HEAD; a schedule is any list of thread ids) ----
+
+    For EVERY schedule of any number of threads delivering any cheques, started after registrations only, at
+    every reachable state: every store Put raised its issuer's payout strictly and by exactly its amount; per
+    issuer the stored last cheque = the last logged payout = the sum of the logged amounts = the highest accepted
+    payout; the credited record of every issuer whose record lock is free equals it; and when no delivery is in
+    flight the number of accepted deliveries is the number of Puts (no cheque is accepted without raising the payout,
+    so a cheque delivered twice concurrently is accepted at most once). *)
+Theorem C30_conc_credit_max : forall (s : state) (progs : list (list delivery)) (sched : list nat),
+  last_recv s = [] -> (forall a, credited_of s a = 0%Z) ->
+  let g := crun prog_head (boot s progs) sched in
+  log_ok (log g) /\
+  (forall a, lp g a = lastlog a (log g) /\ sumlog a (log g) = lp g a /\ maxlog a (log g) = lp g a) /\
+  (forall a, get a (tlocks g) = None -> cr g a = lp g a) /\
+  (Forall (fun th => job th = None) (thr g) -> length (log g) = accepted_total g).
+Proof. intros s progs sched. exact (conc_credit_max prog_head s progs sched head_disciplined). Qed.
+Print Assumptions C30_conc_credit_max.
+
+(** the same for ANY instruction order that passes the static lock-discipline check [disciplined] *)
+Theorem C30_conc_any_disciplined_order : forall prog (s : state) (progs : list (list delivery)) (sched : list nat),
+  disciplined prog = true -> last_recv s = [] -> (forall a, credited_of s a = 0%Z) ->
+  let g := crun prog (boot s progs) sched in
+  log_ok (log g) /\
+  (forall a, lp g a = lastlog a (log g) /\ sumlog a (log g) = lp g a /\ maxlog a (log g) = lp g a) /\
+  (forall a, get a (tlocks g) = None -> cr g a = lp g a) /\
+  (Forall (fun th => job th = None) (thr g) -> length (log g) = accepted_total g).
+Proof. exact conc_credit_max. Qed.
+Print Assumptions C30_conc_any_disciplined_order.
+
+(** narrowed locks (load + compare before the store lock, record lock only around the credit): the order fails
+    the discipline check, and a schedule exists in which one cheque of 100 delivered on two streams is accepted
+    twice: 200 credited in total against a highest payout of 100 *)
+Definition race_state : state := snd (run (init 1) [OHandshake 10 2]).
+Definition race_cheque : signed := {| chq := {| recipient := 1; beneficiary := 2; payout := 100 |}; rec := Some 2 |}.
+Definition race_sched : list nat := [0;0;0;0;0; 1;1;1;1;1; 0;0;0;0;0;0;0; 1;1;1;1;1;1;1]%nat.
+Theorem C30_conc_narrow_refuted :
+  disciplined prog_narrow = false /\
+  let g := crun prog_narrow (boot race_state [[(10, race_cheque)]; [(10, race_cheque)]]) race_sched in
+  finished g = true /\ accepted_total g = 2%nat /\ sumlog 2 (log g) = 200%Z /\ lp g 2 = 100%Z.
+Proof. vm_compute. repeat split. Qed.
+Print Assumptions C30_conc_narrow_refuted.
+
+Definition drain_for_example : cstate :=
+  crun prog_head (boot race_state [[(10, race_cheque)]; [(10, race_cheque)]])
+       (race_sched ++ [0;0;0;0;0;0;0;0;0;0;0;0; 1;1;1;1;1;1;1;1;1;1;1;1]%nat).
+
+(** non-vacuity: the same two deliveries under the code's locks, same schedule prefix: the second is refused *)
+Example C30_conc_head_example :
+  last_recv race_state = [] /\ (forall a, credited_of race_state a = 0%Z) /\
+  let g := drain_for_example in
+  finished g = true /\ accepted_total g = 1%nat /\ sumlog 2 (log g) = 100%Z /\ lp g 2 = 100%Z /\ cr g 2 = 100%Z.
+Proof.
+  split; [reflexivity|]. split.
+  - intros a. unfold credited_of, race_state. cbn. destruct (a =? 2); reflexivity.
+  - vm_compute. repeat split.
+Qed.
 
 (** with the law of a signature scheme: an honest cheque (signed by the issuer's key, made
     out to this node, increasing) sent by the registered peer is accepted *)
